@@ -18,7 +18,8 @@ EXPLANATION = (
     "DeEvent::Text (XmlReader is a merging transducer: the lookahead is only filled by read_lookahead, which never returns "
     "a DOCTYPE, XmlReader::next drops nothing else after the lookahead except a last text that became empty, and drain_text "
     "handles exactly the variants current_event_is_last_text() lets through), J6 container just filled, J7 audited "
-    "library facts."
+    "library facts. RD: the event reader under the deserializer must not panic either: C03's reader panic audit and its "
+    "supporting facts are re-evaluated."
 )
 ASSUMPTIONS = ["panics in serde itself or in user Deserialize impls are out of scope", "a user Visitor follows serde's MapAccess/SeqAccess/EnumAccess protocol (key before value, variant_seed before *_variant)"]
 
@@ -330,7 +331,20 @@ def j1b_preconditions(ctx):
         ctx.floor("J1", "callers of skip_next_tree", n, 2, config=cfg)
 
 
-RULES = [("A", a_audit), ("J1", j1_peek_then_next), ("J1b", j1b_preconditions), ("J2", j2_flags), ("J3", j3_config), ("J4", j4_merging), ("J6", j6_just_filled)]
+def rd_reader_total(ctx):
+    """Deserializing from a reader or a string drives the event reader over the same bytes: a panic in the reader is a
+    panic of the deserializer.  The reader's own panic-site audit (C03 R5) and the facts its exemptions cite (C03 R5s)
+    are therefore re-evaluated here, so that a change which lets the reader panic makes C07 itself fire."""
+    import c03
+    n0 = len(ctx.obs)
+    c03.r5_panics(ctx)
+    c03.r5_support(ctx)
+    for o in ctx.obs[n0:]:
+        o["site"] = "reader:" + o["rule"] + ":" + o["site"]
+        o["rule"] = "RD"
+
+
+RULES = [("A", a_audit), ("RD", rd_reader_total), ("J1", j1_peek_then_next), ("J1b", j1b_preconditions), ("J2", j2_flags), ("J3", j3_config), ("J4", j4_merging), ("J6", j6_just_filled)]
 
 
 def THOROUGH_EXTRA(ctx):
